@@ -10,7 +10,7 @@
 From Coq Require Import ZArith List Bool.
 From Model Require Import PyBase Graph PeriodicTable Valence Kekule Thiele.
 From Gen Require Import Elements KekuleCls ThieleCls.
-From Proofs Require Import KekuleProofs KekuleExt KekuleValence KekuleThiele KekuleSound KekuleLink KekulePrep KekuleGenTie.
+From Proofs Require Import KekuleProofs KekuleExt KekuleValence KekuleThiele KekuleSound KekuleLink KekulePrep KekuleGenTie KekuleTrace.
 Import ListNotations.
 Open Scope Z_scope.
 
@@ -377,6 +377,26 @@ Print Assumptions C05_gen_ring_step_eq.
 Theorem C05_gen_ring_step_t_eq : forall g s ring, ring_step_t_src g s ring = ring_step_t g s ring.
 Proof. exact gen_ring_step_t_eq. Qed.
 Print Assumptions C05_gen_ring_step_t_eq.
+
+(* ---- the search step by step (for the intermediate-state correspondence: the check records stack, path, buffer_size and
+   buffer of the running generator at the head of every iteration of `while stack:` and compares them with ktrace):
+   kekule_component is kloop from the initial state kinit, and kloop passes through the traced states (kafter = the state
+   after n iterations, as long as fewer than maxy forms were collected). *)
+Theorem C05_kekule_component_kinit : forall rings db db_start pyr bs maxy fuel,
+  kekule_component rings db db_start pyr bs maxy fuel =
+  match kinit rings db db_start pyr bs with
+  | Ok (db', start, size, s) => kloop rings db' pyr start size fuel maxy s []
+  | Err e => Err e
+  end.
+Proof. exact kekule_component_kinit. Qed.
+Print Assumptions C05_kekule_component_kinit.
+
+Theorem C05_kloop_kafter : forall rings db pyr start size n fuel maxy s acc s' acc',
+  kafter rings db pyr start size n s acc = Ok (s', acc') -> (List.length acc' < maxy)%nat -> (n <= fuel)%nat ->
+  (forall m, (m <= n)%nat -> forall sm am, kafter rings db pyr start size m s acc = Ok (sm, am) -> (List.length am < maxy)%nat) ->
+  exists fuel', kloop rings db pyr start size fuel maxy s acc = kloop rings db pyr start size fuel' maxy s' acc'.
+Proof. exact kloop_kafter. Qed.
+Print Assumptions C05_kloop_kafter.
 
 (* ---- thiele() with the default fix_tautomers=True, algorithm-level model thiele_model_t (ring loop with acceptors / donors, the
    depth-first hydrogen-moving search, quinone stage, pruning, writing; tied by correspondence, the iteration orders of the
